@@ -573,3 +573,70 @@ Proof.
   split; [reflexivity|]. split; [exists [wf0; {| fseq := 1; flen := 8; fb := BJobSpawned 0 true |}]; vm_compute; reflexivity|].
   split; vm_compute; reflexivity.
 Qed.
+
+(* ------------------------------------------------------------------ the message ordinal index *)
+(* a misaligned index stays misaligned under appends, so every later count is refused (readers
+   fall back to truth).  A writer that "repairs" the alignment breaks exactly this. *)
+Theorem ord_append_never_repairs recs torn seqs mr_last :
+  torn <> 0 -> ord_count (fold_left ord_append seqs (OFile recs torn)) mr_last = OErr.
+Proof.
+  intros Ht. assert (H : fold_left ord_append seqs (OFile recs torn) = OFile recs torn).
+  { induction seqs as [|x r IH]; [reflexivity|]. cbn [fold_left ord_append].
+    destruct (torn =? 0) eqn:E; [apply N.eqb_eq in E; contradiction | exact IH]. }
+  rewrite H. cbn [ord_count]. destruct (torn =? 0) eqn:E; [apply N.eqb_eq in E; contradiction | reflexivity].
+Qed.
+
+(* what the count reader accepts: an aligned file whose LAST record is the last message — nothing
+   about the records before it (class K3) *)
+Theorem ord_count_accepts f mr_last n :
+  ord_count f mr_last = OSome n ->
+  exists recs last, f = OFile recs 0 /\ mr_last = OSome last /\ n = nlen recs /\ hd_error (rev recs) = Some last.
+Proof.
+  destruct f as [| | |recs torn]; cbn [ord_count]; try discriminate.
+  destruct (torn =? 0) eqn:Et; cbn [negb]; [|discriminate]. apply N.eqb_eq in Et. subst torn.
+  destruct mr_last as [| |last]; try discriminate.
+  destruct (rev recs) as [|r rr] eqn:Er; [discriminate|].
+  destruct (r =? last) eqn:El; [|discriminate]. apply N.eqb_eq in El. subst r.
+  intros H; inversion H; subst n. exists recs, last. rewrite Er. repeat split; reflexivity.
+Qed.
+
+(* the index written by the appends of an undisturbed thread is the projection ... *)
+Lemma ord_appends_projection seqs : seqs <> [] ->
+  fold_left ord_append seqs OAbsent = OFile seqs 0.
+Proof.
+  destruct seqs as [|x r]; [congruence|]. intros _. cbn [fold_left ord_append].
+  assert (H : forall r acc, fold_left ord_append r (OFile acc 0) = OFile (acc ++ r) 0).
+  { clear. induction r as [|y r IH]; intros acc; cbn [fold_left ord_append]; [rewrite app_nil_r; reflexivity|].
+    rewrite N.eqb_refl, IH, <- app_assoc. reflexivity. }
+  rewrite H. reflexivity.
+Qed.
+
+(* ... and on the projection both readers give the truth answers *)
+Theorem ord_projection_transparent (msgs : list N) (last : N) :
+  hd_error (rev msgs) = Some last ->
+  ord_count (OFile msgs 0) (OSome last) = OSome (nlen msgs)
+  /\ forall k known, (forall m, In m msgs -> known m = true) -> 0 < k ->
+       ord_by_ordinal (OFile msgs 0) known k =
+       match nth_error msgs (N.to_nat (k - 1)) with Some m => OSome m | None => ONone end.
+Proof.
+  intros Hl. split.
+  - cbn [ord_count]. rewrite N.eqb_refl. cbn [negb]. destruct (rev msgs) as [|r rr]; [discriminate|].
+    cbn in Hl. inversion Hl; subst r. rewrite N.eqb_refl. reflexivity.
+  - intros k known Hk Hpos. cbn [ord_by_ordinal].
+    destruct (k =? 0) eqn:E; [apply N.eqb_eq in E; lia|].
+    destruct (nth_error msgs (N.to_nat (k - 1))) as [m|] eqn:En; [|reflexivity].
+    rewrite (Hk m (nth_error_In _ _ En)). reflexivity.
+Qed.
+
+(* K3: an aligned index that lost a record in the middle passes the cross-check *)
+Lemma K3_changes_answer :
+  ord_count (OFile [1; 5] 0) (OSome 5) = OSome 2
+  /\ ord_by_ordinal (OFile [1; 5] 0) (fun _ => true) 2 = OSome 5
+  /\ nlen [1; 3; 5] = 3 /\ nth_error [1; 3; 5] 1 = Some 3.
+Proof. repeat split; vm_compute; reflexivity. Qed.
+
+(* the seeded "repair" (truncate the torn bytes, then append) is not the reference step *)
+Lemma ord_repair_step_rejected :
+  ord_step_ok {| os_before := OFile [1; 3] 19; os_seq := 7; os_after := OFile [1; 3; 7] 0; os_msgs := [1; 3; 5; 7] |} = false
+  /\ ord_step_ok {| os_before := OFile [1; 3] 19; os_seq := 7; os_after := OFile [1; 3] 19; os_msgs := [1; 3; 5; 7] |} = true.
+Proof. split; vm_compute; reflexivity. Qed.
